@@ -27,6 +27,13 @@ Proof.
   destruct (rentry_eq_dec x y); [assumption|discriminate].
 Qed.
 
+Lemma NoDup_app_intro' {A} (a b : list A) : NoDup a -> NoDup b -> (forall x, In x a -> ~ In x b) -> NoDup (a ++ b).
+Proof.
+  induction a as [|x a IH]; intros Ha Hb Hd; cbn [app]; [exact Hb|]. inversion Ha; subst. constructor.
+  - intros Hin. apply in_app_or in Hin. destruct Hin as [Hin|Hin]; [contradiction|]. apply (Hd x); [left; reflexivity|exact Hin].
+  - apply IH; [assumption|assumption|]. intros y Hy. apply Hd. right. exact Hy.
+Qed.
+
 Section Loops.
   Variable r : registry.
   Variable feats : list Z.
@@ -34,17 +41,19 @@ Section Loops.
   Lemma sib_loop_spec : forall sibs d, exists ext,
     sib_loop feats sibs d = mkD (d_added d ++ map rname ext) (d_queue d ++ ext) (d_items d ++ ext) /\
     (forall y, In y ext -> In y sibs /\ enabledb feats y = true /\ ~ In (rname y) (d_added d)) /\
-    (forall sib, In sib sibs -> enabledb feats sib = true -> In (rname sib) (d_added d ++ map rname ext)).
+    (forall sib, In sib sibs -> enabledb feats sib = true -> In (rname sib) (d_added d ++ map rname ext)) /\
+    NoDup (map rname ext).
   Proof.
     induction sibs as [|sib rest IH]; intros d.
-    - exists []. cbn [sib_loop map]. rewrite !app_nil_r. destruct d; cbn. split; [reflexivity|]. split; [intros y []|intros s []].
+    - exists []. cbn [sib_loop map]. rewrite !app_nil_r. destruct d; cbn. split; [reflexivity|].
+      split; [intros y []|]. split; [intros s []|constructor].
     - cbn [sib_loop]. destruct (memz (rname sib) (d_added d)) eqn:Em.
-      + destruct (IH d) as (ext & E & H1 & H2). exists ext. split; [exact E|]. split.
+      + destruct (IH d) as (ext & E & H1 & H2 & H3). exists ext. split; [exact E|]. split; [|split; [|exact H3]].
         * intros y Hy. destruct (H1 y Hy) as (A & B & C). split; [right; exact A|auto].
         * intros s [<-|Hs] He; [|auto]. apply in_or_app. left. apply memz_In. exact Em.
       + destruct (enabledb feats sib) eqn:Ee.
-        * destruct (IH (mkD (d_added d ++ [rname sib]) (d_queue d ++ [sib]) (d_items d ++ [sib]))) as (ext & E & H1 & H2).
-          cbn [d_added d_queue d_items] in *. exists (sib :: ext). split; [|split].
+        * destruct (IH (mkD (d_added d ++ [rname sib]) (d_queue d ++ [sib]) (d_items d ++ [sib]))) as (ext & E & H1 & H2 & H3).
+          cbn [d_added d_queue d_items] in *. exists (sib :: ext). split; [|split; [|split]].
           -- rewrite E. cbn [map]. rewrite <- !app_assoc. reflexivity.
           -- intros y [<-|Hy].
              ++ split; [left; reflexivity|]. split; [exact Ee|]. intros Hin. apply memz_In in Hin. congruence.
@@ -53,7 +62,9 @@ Section Loops.
           -- intros s Hs He. cbn [map]. destruct Hs as [<-|Hs].
              ++ apply in_or_app. right. left. reflexivity.
              ++ specialize (H2 s Hs He). rewrite <- app_assoc in H2. exact H2.
-        * destruct (IH d) as (ext & E & H1 & H2). exists ext. split; [exact E|]. split.
+          -- cbn [map]. constructor; [|exact H3]. intros Hin. apply in_map_iff in Hin. destruct Hin as (y & Ey & Hy).
+             destruct (H1 y Hy) as (_ & _ & C). apply C. apply in_or_app. right. left. symmetry. exact Ey.
+        * destruct (IH d) as (ext & E & H1 & H2 & H3). exists ext. split; [exact E|]. split; [|split; [|exact H3]].
           -- intros y Hy. destruct (H1 y Hy) as (A & B & C). split; [right; exact A|auto].
           -- intros s [<-|Hs] He; [congruence|auto].
   Qed.
@@ -62,13 +73,15 @@ Section Loops.
     dep_loop r feats deps d = mkD (d_added d ++ map rname ext) (d_queue d ++ ext) (d_items d ++ ext) /\
     (forall y, In y ext -> (exists dep, In dep deps /\ In y (summon r dep)) /\ enabledb feats y = true /\ ~ In (rname y) (d_added d)) /\
     (forall dep sib, In dep deps -> In sib (summon r dep) -> enabledb feats sib = true ->
-       In (rname sib) (d_added d ++ map rname ext)).
+       In (rname sib) (d_added d ++ map rname ext)) /\
+    NoDup (map rname ext).
   Proof.
     induction deps as [|dep rest IH]; intros d.
-    - exists []. cbn [dep_loop map]. rewrite !app_nil_r. destruct d; cbn. split; [reflexivity|]. split; [intros y []|intros ? ? []].
-    - cbn [dep_loop]. destruct (sib_loop_spec (summon r dep) d) as (e1 & E1 & A1 & B1). rewrite E1.
-      destruct (IH (mkD (d_added d ++ map rname e1) (d_queue d ++ e1) (d_items d ++ e1))) as (e2 & E2 & A2 & B2).
-      cbn [d_added d_queue d_items] in *. exists (e1 ++ e2). split; [|split].
+    - exists []. cbn [dep_loop map]. rewrite !app_nil_r. destruct d; cbn. split; [reflexivity|].
+      split; [intros y []|]. split; [intros ? ? []|constructor].
+    - cbn [dep_loop]. destruct (sib_loop_spec (summon r dep) d) as (e1 & E1 & A1 & B1 & N1). rewrite E1.
+      destruct (IH (mkD (d_added d ++ map rname e1) (d_queue d ++ e1) (d_items d ++ e1))) as (e2 & E2 & A2 & B2 & N2).
+      cbn [d_added d_queue d_items] in *. exists (e1 ++ e2). split; [|split; [|split]].
       + rewrite E2, map_app, <- !app_assoc. reflexivity.
       + intros y Hy. apply in_app_or in Hy. destruct Hy as [Hy|Hy].
         * destruct (A1 y Hy) as (A & B & C). split; [exists dep; split; [left; reflexivity|exact A]|auto].
@@ -77,6 +90,9 @@ Section Loops.
       + intros dp sib [<-|Hdp] Hs He; rewrite map_app, app_assoc.
         * apply in_or_app. left. apply B1; assumption.
         * rewrite <- app_assoc, <- map_app. specialize (B2 dp sib Hdp Hs He). rewrite map_app. rewrite <- app_assoc in B2. exact B2.
+      + rewrite map_app. apply NoDup_app_intro'; [exact N1|exact N2|].
+        intros x Hx1 Hx2. apply in_map_iff in Hx2. destruct Hx2 as (y & Ey & Hy).
+        destruct (A2 y Hy) as (_ & _ & C). apply C. apply in_or_app. right. rewrite Ey. exact Hx1.
   Qed.
 End Loops.
 
@@ -118,7 +134,7 @@ Section Closure.
     induction fuel as [|f IH]; intros done d d' Hi H; [discriminate|].
     cbn [queue_loop] in H. destruct (d_queue d) as [|head q] eqn:Eq.
     - injection H as <-. exists done. split; [exact Hi|exact Eq].
-    - destruct (dep_loop_spec r dfeats (rreq head) (mkD (d_added d) q (d_items d))) as (ext & E & A & B).
+    - destruct (dep_loop_spec r dfeats (rreq head) (mkD (d_added d) q (d_items d))) as (ext & E & A & B & _).
       cbn [d_added d_queue d_items] in *. rewrite E in H.
       apply (IH (done ++ [head])) in H; [exact H|]. clear IH H.
       destruct Hi as [I1 I2 I3 I4 I5 I6]. rewrite Eq in *. split; cbn [d_added d_queue d_items].
@@ -186,6 +202,86 @@ Section Closure.
       + left. reflexivity.
   Qed.
 End Closure.
+
+(* ---------- the fuel of the model never runs out ---------- *)
+Section Fuel.
+  Variable U : list Z.
+  Hypothesis HU : NoDup U.
+  Definition cnt (A : list Z) : nat := length (filter (fun n => negb (memz n A)) U).
+
+  Lemma memz_snoc n A x : memz n (A ++ [x]) = memz n A || (n =? x).
+  Proof. unfold memz. rewrite existsb_app. cbn [existsb]. rewrite orb_false_r. reflexivity. Qed.
+
+  Lemma filter_notin (l : list Z) A x : ~ In x l ->
+    filter (fun n => negb (memz n (A ++ [x]))) l = filter (fun n => negb (memz n A)) l.
+  Proof.
+    induction l as [|u l IH]; intros H; cbn [filter]; [reflexivity|].
+    rewrite memz_snoc. assert (u =? x = false) as -> by (apply Z.eqb_neq; intros ->; apply H; left; reflexivity).
+    rewrite orb_false_r, IH; [reflexivity|]. intros Hx. apply H. right. exact Hx.
+  Qed.
+
+  Lemma cnt_add x A : In x U -> ~ In x A -> S (cnt (A ++ [x])) = cnt A.
+  Proof.
+    unfold cnt. revert HU. induction U as [|u l IH]; intros Hnd Hx Hn; [destruct Hx|].
+    inversion Hnd; subst. cbn [filter]. rewrite memz_snoc. destruct (Z.eq_dec u x) as [->|Hne].
+    - rewrite Z.eqb_refl, orb_true_r. cbn [negb].
+      assert (memz x A = false) as ->.
+      { destruct (memz x A) eqn:E; [|reflexivity]. apply memz_In in E. contradiction. }
+      cbn [negb length]. rewrite filter_notin by assumption. reflexivity.
+    - assert (u =? x = false) as -> by (apply Z.eqb_neq; exact Hne). rewrite orb_false_r.
+      destruct Hx as [Hx|Hx]; [congruence|].
+      destruct (negb (memz u A)); cbn [length]; rewrite <- (IH H2 Hx Hn); reflexivity.
+  Qed.
+
+  Lemma cnt_add_list : forall N A, NoDup N -> (forall y, In y N -> In y U /\ ~ In y A) ->
+    (cnt (A ++ N) + length N = cnt A)%nat.
+  Proof.
+    induction N as [|x N IH]; intros A Hnd H; [rewrite app_nil_r; cbn; lia|].
+    inversion Hnd; subst. replace (A ++ x :: N) with ((A ++ [x]) ++ N) by (rewrite <- app_assoc; reflexivity).
+    destruct (H x (or_introl eq_refl)) as [HxU HxA].
+    rewrite <- (cnt_add x A HxU HxA). cbn [length].
+    rewrite <- (IH (A ++ [x]) H3); [lia|]. intros y Hy. destruct (H y (or_intror Hy)) as [A1 A2]. split; [exact A1|].
+    intros Hin. apply in_app_or in Hin. destruct Hin as [Hin|[<-|[]]]; contradiction.
+  Qed.
+End Fuel.
+
+Section Total.
+  Variable r : registry.
+  Variable feats : list Z.
+  Definition unames : list Z := nodup Z.eq_dec (map rname (universe r)).
+
+  Lemma queue_loop_total : forall fuel d,
+    (length (d_queue d) + cnt unames (d_added d) < fuel)%nat -> exists d', queue_loop fuel r feats d = Some d'.
+  Proof.
+    induction fuel as [|f IH]; intros d H; [lia|]. cbn [queue_loop].
+    destruct (d_queue d) as [|head q] eqn:Eq; [eauto|].
+    destruct (dep_loop_spec r feats (rreq head) (mkD (d_added d) q (d_items d))) as (ext & E & A & B & N).
+    cbn [d_added d_queue d_items] in *. rewrite E. apply IH. cbn [d_added d_queue]. rewrite app_length.
+    pose proof (cnt_add_list unames (NoDup_nodup _ _) (map rname ext) (d_added d) N) as Hc.
+    rewrite map_length in Hc. cbn [length] in H.
+    rewrite <- Hc in H; [lia|]. intros y Hy. apply in_map_iff in Hy. destruct Hy as (e & <- & He).
+    destruct (A e He) as ((dep & Hdep & Hs) & _ & Hn). split; [|exact Hn].
+    unfold unames. apply nodup_In. apply in_map. eapply summon_universe. exact Hs.
+  Qed.
+End Total.
+
+Lemma filter_len_le {A} (f : A -> bool) l : (length (filter f l) <= length l)%nat.
+Proof. induction l as [|x l IH]; cbn [filter length]; [lia|]. destruct (f x); cbn [length]; lia. Qed.
+
+Theorem deploy_total r p item : exists p', deploy r p item = Some p'.
+Proof.
+  unfold deploy.
+  destruct (queue_loop_total r (p_feats p ++ rfeat item) (S (S (length (universe r))))
+              (mkD (map rname (p_items p) ++ [rname item]) [item] (p_items p ++ [item]))) as (d & E).
+  - cbn [d_queue d_added length]. unfold cnt.
+    assert ((length (filter (fun n => negb (memz n (map rname (p_items p) ++ [rname item]))) (unames r)) <= length (universe r))%nat).
+    { eapply Nat.le_trans; [apply filter_len_le|]. unfold unames.
+      eapply Nat.le_trans; [apply NoDup_incl_length; [apply NoDup_nodup|]|].
+      - intros x Hx. apply nodup_In in Hx. exact Hx.
+      - rewrite map_length. apply Nat.le_refl. }
+    lia.
+  - rewrite E. eauto.
+Qed.
 
 Theorem deploy_closure_main r p item p' : reg_okb r = true -> deploy r p item = Some p' ->
   p_feats p' = p_feats p ++ rfeat item /\
